@@ -351,6 +351,13 @@ func UFString(name string, args ...interface{}) string {
 	return s
 }
 
+// UFStringInj is UFString for an INJECTIVE function (an ideal MAC / hash: equal outputs only for equal inputs).
+func UFStringInj(name string, args ...interface{}) string {
+	v, _ := draw("uf:" + name)
+	s, _ := v.(string)
+	return s
+}
+
 // Regex returns a compiled pattern standing for "some regular expression": under the
 // executor MatchString on it is the uninterpreted predicate match(id, s). Natively it
 // is rebuilt from the model: it matches exactly the strings the model says it matches.
